@@ -19,6 +19,8 @@ S      : func = polynomial on [r_min, r_max), 0 outside; abel = line-of-sight qu
 """
 import json
 
+import warnings
+
 import numpy as np
 from scipy.integrate import quad
 from scipy.special import eval_legendre
@@ -171,6 +173,21 @@ def oracle(ck, tier, deep):
                 ck.violation(dict(site="PiecewisePolynomial", clause="scalar-ops-pieces"), dict(rep, k=k, op=label, pieces=bad),
                              f"{label}: pieces {bad} of the result are not the scaled pieces (they no longer sum to the whole)")
                 break
+        # … and in place on the object as constructed (not on a copy: a copy no longer shares whatever the constructor left shared
+        # between the whole and its pieces — with a single range the sum of the pieces is the piece)
+        for label, fac in (("fresh *= k", k), ("fresh /= k", 1 / k)):
+            fresh = quiet(PiecewisePolynomial, r, ranges)
+            if label.startswith("fresh *"):
+                fresh *= k
+            else:
+                fresh /= k
+            okw = np.allclose(fresh.func, fac * f0, rtol=1e-13, atol=1e-300) and np.allclose(fresh.abel, fac * a0, rtol=1e-13, atol=1e-300)
+            okp = all(np.allclose(q.func, fac * q0.func, rtol=1e-13, atol=1e-300) and np.allclose(q.abel, fac * q0.abel, rtol=1e-13, atol=1e-300)
+                      for q, q0 in zip(fresh.p, parts))
+            if not (okw and okp):
+                ck.violation(dict(site="PiecewisePolynomial", clause="scalar-ops-in-place"), dict(rep, k=k, op=label, pieces=len(ranges)),
+                             f"{label} on a PiecewisePolynomial of {len(ranges)} piece(s): {'func/abel are' if not okw else 'the pieces are'} not scaled by {fac:.4g}")
+                break
     # SPolynomial on a 2-D grid
     for it in range(20 if not deep else 300):
         shape = (int(rng.integers(7, 15)), int(rng.integers(7, 15)))
@@ -208,7 +225,7 @@ def oracle(ck, tier, deep):
     for it in range(15 if not deep else 150):
         shape = (int(rng.integers(7, 13)), int(rng.integers(7, 13)))
         R, C = quiet(rcos, shape=shape)
-        npieces = int(rng.integers(2, 5))
+        npieces = int(rng.integers(1, 5))
         ranges = []
         for k in range(npieces):
             M, N = int(rng.integers(1, 4)), int(rng.integers(1, 4))
@@ -236,6 +253,12 @@ def oracle(ck, tier, deep):
         if np.abs(cp.func - 3 * wf).max() > 1e-12 * scale or np.abs(cp.abel - 3 * wa).max() > 1e-12 * scale or \
                 np.abs(pw.func - wf).max() > 1e-12 * scale or np.abs(pw.abel - wa).max() > 1e-12 * scale:
             ck.violation(dict(site="PiecewiseSPolynomial", clause="scalar-or-copy"), rep, "`copy(); *= 3` did not scale func and abel by 3 each, leaving the original alone")
+        fresh = quiet(PiecewiseSPolynomial, R, C, [tuple(rg) for rg in ranges])
+        fresh *= 3.0
+        fresh /= 2.0
+        if np.abs(fresh.func - 1.5 * wf).max() > 1e-12 * scale or np.abs(fresh.abel - 1.5 * wa).max() > 1e-12 * scale:
+            ck.violation(dict(site="PiecewiseSPolynomial", clause="scalar-ops-in-place"), rep,
+                         f"`*= 3; /= 2` on a freshly built PiecewiseSPolynomial of {npieces} piece(s) did not scale func and abel by 1.5")
     # rcos conventions
     R, C = quiet(rcos, shape=(5, 7), origin=(1, 2))
     ck.count("S.rcos", suite="S.spolynomial")
@@ -360,6 +383,50 @@ def corr_spterm(ck, tier):
                         f"SPolynomial(c[{m},{n}]=1).abel at r={r:.6g}, cos={cs:.4g} is {a!r}, the Lean term model gives {g!r}")
 
 
+def limit_types(ck, tier):
+    """the interval limits, shift and stretch are numbers, whatever their Python / NumPy type: integer-typed limits (np.int64(500)
+    from an array of pixel indices) give the result of the equal float (repair F65: r_max**k wrapped around in int64 at r = 0)"""
+    from abel.tools.polynomial import Polynomial, SPolynomial, rcos
+    rng = np.random.default_rng(seed() + 1065)
+    casts = [int, np.int64, np.int32, np.int16, np.uint16, np.float32, np.float64]
+    for it in range(12 if tier == "quick" else 80):
+        rmax = int(rng.choice([7, 40, 500, 3000]))
+        rmin = int(rng.choice([0, 0, 1, rmax // 3]))
+        M = int(rng.choice([2, 5, 9, 12]))
+        n = int(rng.choice([5, 9]))
+        c1 = rng.normal(size=M + 1) * float(rmax) ** -np.arange(M + 1)               # terms of comparable size at r_max
+        c2 = np.zeros((M + 1, 3))
+        c2[:, 0] = c1
+        c2[:, 2] = rng.normal(size=M + 1) * float(rmax) ** -np.arange(M + 1)
+        r1 = np.arange(0, n, dtype=float) * (rmax / (n - 1.5))
+        R, C = rcos(shape=(n, n))
+        R = R * (rmax / (n / 2))
+        ref1 = Polynomial(r1, float(rmin), float(rmax), c1)
+        ref2 = SPolynomial(R, C, float(rmin), float(rmax), c2)
+        for cast in casts:
+            if cast in (np.int16,) and rmax > 30000:
+                continue
+            ck.count(("S.limit-type", cast.__name__, M, rmax), suite="S.limit-types")
+            try:
+                with warnings.catch_warnings():
+                    warnings.simplefilter("ignore")
+                    p1 = Polynomial(r1, cast(rmin), cast(rmax), c1)
+                    p2 = SPolynomial(R, C, cast(rmin), cast(rmax), c2)
+            except Exception as e:
+                ck.violation(dict(site="polynomial", clause="limit-type-exception"), dict(cast=cast.__name__, r_min=rmin, r_max=rmax, M=M), f"{type(e).__name__}: {e}")
+                continue
+            for cls, got, ref in (("Polynomial", p1, ref1), ("SPolynomial", p2, ref2)):
+                for attr in ("func", "abel"):
+                    a, b = getattr(got, attr), getattr(ref, attr)
+                    tol = 1e-6 * max(1.0, float(np.abs(b).max()))          # (float32 limits are the same numbers here: small integers)
+                    if a.shape != b.shape or not np.all(np.abs(a - b) <= tol):
+                        where = np.unravel_index(int(np.argmax(np.abs(a - b))), a.shape) if a.shape == b.shape else None
+                        ck.violation(dict(site=cls, clause="limit-type"), dict(cls=cls, attr=attr, cast=cast.__name__, r_min=rmin, r_max=rmax, degree=M,
+                                                                               index=[int(v) for v in where] if where else None),
+                                     f"{cls}.{attr} with r_min, r_max given as {cast.__name__} ({rmin}, {rmax}; degree {M}) differs from the float limits by "
+                                     f"{np.abs(a - b).max() if a.shape == b.shape else 'shape'} (scale {np.abs(b).max():.3g})")
+
+
 def run(tier):
     ck = Check("C10", tier)
     deep = tier == "thorough"
@@ -385,6 +452,7 @@ def run(tier):
     else:
         ck.broken.append(dict(kind="proof", module="pyabel_drv", why="driver build failed", log=log[-1500:]))
     oracle(ck, tier, deep or bool(ck.broken))
+    limit_types(ck, tier)
     return ck.finish()
 
 
